@@ -41,6 +41,14 @@ Theorem C05_rho_and_infecteds_rejected :
     gillespie g kind tau gamma (Some i0) r0 (Some rho) tmin tmax full fuel = Fail EoNError.
 Proof. exact (gillespie_rho_and_infecteds_rejected g kind tau gamma tmin tmax full). Qed.
 
+(* Gillespie_SIR: giving both rho and initial_recovereds is rejected with EoNError (as fast_SIR does; repaired in
+   /repo — without the guard random.sample could draw an initially recovered node as initially infected, see
+   known_findings.json "fixed") *)
+Theorem C05_rho_and_recovereds_rejected :
+  forall i0 l0 rho fuel, kind = SIR ->
+    gillespie g kind tau gamma i0 (Some l0) (Some rho) tmin tmax full fuel = Fail EoNError.
+Proof. exact (gillespie_rho_and_recovereds_rejected g kind tau gamma tmin tmax full). Qed.
+
 (* rho selects int(round(N*rho)) DISTINCT nodes of the graph (one node when neither is
    given) and the run is the run from that explicit set *)
 Theorem C05_rho_selects_round_N_rho_distinct_nodes :
@@ -66,6 +74,7 @@ Print Assumptions C05_row0_is_the_request.
 Print Assumptions C05_row0_for_every_script.
 Print Assumptions C05_initial_statuses.
 Print Assumptions C05_rho_and_infecteds_rejected.
+Print Assumptions C05_rho_and_recovereds_rejected.
 Print Assumptions C05_rho_selects_round_N_rho_distinct_nodes.
 Print Assumptions C05_round_half_even.
 Print Assumptions C05_hypotheses_satisfiable.
